@@ -1,6 +1,7 @@
 use std::sync::Arc;
 
 use rten_base::bit_set::BitSet;
+use rten_tensor::layout::is_valid_permutation;
 use rten_tensor::prelude::*;
 
 use crate::infer_shapes::InferShapes;
@@ -24,6 +25,11 @@ impl TransformInput for PermuteInput {
     fn transform(&self, input: &mut ValueView) -> Result<(), OpError> {
         map_value_view!(input, tensor, {
             if let Some(perm) = self.perm.as_ref() {
+                // The permutation was valid for the shape seen when the graph
+                // was optimized, but the input's rank at runtime may differ.
+                if !is_valid_permutation(tensor.ndim(), perm) {
+                    return Err(OpError::InvalidValue("Permutation is invalid"));
+                }
                 tensor.permute(perm);
             } else {
                 tensor.transpose();
